@@ -32,9 +32,14 @@ Theorem C02_expiry_forgets :
 Proof. exact expire_kills. Qed.
 Print Assumptions C02_expiry_forgets.
 
+Theorem C02_lifetime_elapsed_forgets_everything :
+  forall ops ph id, key_state (ops ++ [ExpireAll]) ph id = None /\ get_regs (run (ops ++ [ExpireAll])) ph = [].
+Proof. exact expire_all_forgets. Qed.
+Print Assumptions C02_lifetime_elapsed_forgets_everything.
+
 Theorem C02_other_keys_irrelevant :
   forall ops ph id op,
-    (forall r, op <> Track ph id r) -> (forall r, op <> Validate ph id r) -> op <> Expire ph id ->
+    (forall r, op <> Track ph id r) -> (forall r, op <> Validate ph id r) -> op <> Expire ph id -> op <> ExpireAll ->
     key_state (ops ++ [op]) ph id = key_state ops ph id.
 Proof. exact other_phantom_irrelevant. Qed.
 Print Assumptions C02_other_keys_irrelevant.
